@@ -224,6 +224,14 @@ type T struct {
 }
 `
 
+// EnumsSrc: a package the setup file imports under the one-letter alias "e" (the name generated slice loops use for the element).
+const EnumsSrc = `package enums
+
+type Code int
+
+type Label string
+`
+
 const ModelBSrc = `package model
 
 type BInt int
@@ -303,6 +311,7 @@ var KnownPkgs = []struct{ Qual, Alias, Path string }{
 	{"oh", "oh", ModulePath + "/other/home"},
 	{"hooks", "", ModulePath + "/hooks"},
 	{"hooksv2", "hooksv2", ModulePath + "/hooks/v2"},
+	{"e", "e", ModulePath + "/enums"},
 }
 
 // LocalZooSrc holds the local named types of the home package (ordinary build).
@@ -504,6 +513,9 @@ var Alphabet = []TypeAtom{
 	{"am.T", "", "struct-layout-alias"},
 	{"bm.T", "", "struct-layout-alias"},
 	{"[]lib.LibInt", "", "slice-named-layout"},
+	{"e.Code", "", "named-basic-layout-alias-like-loop-variable"},
+	{"[]e.Code", "", "slice-named-layout-alias-like-loop-variable"},
+	{"[]e.Label", "", "slice-named-layout-alias-like-loop-variable"},
 	{"oh.Rec", "", "struct-layout-same-package-name"},
 	{"oh.Rec2", "", "struct-layout-same-package-name"},
 	{"LForeign", "", "struct-local-foreign-underlying"},
